@@ -3,6 +3,7 @@
 (the set of addresses may shrink: the spliced-out node, and whatever hangs under a cut-off node, become garbage).
 -/
 import Ekit.MiniGo.RBOrder
+import Ekit.Lemmas.RBPtrSize
 namespace Ekit.MiniGo.RBHeap.Del
 open Ekit.MiniGo Ekit.Gen.RBTreeGo
 
@@ -84,19 +85,34 @@ theorem Shr.ordered {cmpF : Int → Int → Int} {st st' : St} {t t' : PT} {n : 
     (hg : Good cmpF st.h t.addrs n) : Ordered cmpF st' t' :=
   good_use hg h.sub h.nmem h.keys
 
-theorem shr_intro {st stm : St} {t : PT} {n r : Nat}
-    (h : ∃ t', Holds stm t' ∧ t'.addrs.Sublist t.addrs ∧ n ∉ t'.addrs ∧ r ∈ t'.addrs)
-    (hk : ∀ a, (stm.h a).key = (st.h a).key) : ∃ t', Shr st stm t t' n ∧ r ∈ t'.addrs := by
+/-- `c → |L| + 1 = m` -/
+def LenQ (c : Prop) (m : Nat) : List Nat → Prop := fun L => c → L.length + 1 = m
+
+theorem shr_intro {st stm : St} {t : PT} {n r : Nat} (Q : List Nat → Prop)
+    (h : ∃ t', Holds stm t' ∧ t'.addrs.Sublist t.addrs ∧ n ∉ t'.addrs ∧ r ∈ t'.addrs ∧ Q t'.addrs)
+    (hk : ∀ a, (stm.h a).key = (st.h a).key) : ∃ t', Shr st stm t t' n ∧ r ∈ t'.addrs ∧ Q t'.addrs := by
+  obtain ⟨t', h1, h2, h3, h4, h5⟩ := h
+  exact ⟨t', ⟨h1, h2, h3, hk⟩, h4, h5⟩
+
+theorem shr_intro' {st stm : St} {t : PT} {n : Nat} (Q : List Nat → Prop)
+    (h : ∃ t', Holds stm t' ∧ t'.addrs.Sublist t.addrs ∧ n ∉ t'.addrs ∧ Q t'.addrs)
+    (hk : ∀ a, (stm.h a).key = (st.h a).key) : ∃ t', Shr st stm t t' n ∧ Q t'.addrs := by
   obtain ⟨t', h1, h2, h3, h4⟩ := h
   exact ⟨t', ⟨h1, h2, h3, hk⟩, h4⟩
 
-theorem shr_intro' {st stm : St} {t : PT} {n : Nat}
-    (h : ∃ t', Holds stm t' ∧ t'.addrs.Sublist t.addrs ∧ n ∉ t'.addrs)
-    (hk : ∀ a, (stm.h a).key = (st.h a).key) : ∃ t', Shr st stm t t' n := by
-  obtain ⟨t', h1, h2, h3⟩ := h
-  exact ⟨t', ⟨h1, h2, h3, hk⟩⟩
-
 /-! ### tree-level facts -/
+
+theorem repr_nil {h : Nat → Node} {par : Option Nat} {t : PT} (hR : Repr h none par t) : t = .leaf := by
+  cases t with
+  | leaf => rfl
+  | node l a r => simp [Repr] at hR
+
+theorem replace_length {t : PT} {n : Nat} {s s' : PT} (hnd : t.addrs.Nodup) (hs : t.sub n = some s)
+    (hl : s'.addrs.length + 1 = s.addrs.length) : (t.replace n s').addrs.length + 1 = t.addrs.length := by
+  obtain ⟨pre, post, e1, e2⟩ := addrs_replace (s' := s') hnd hs
+  rw [e1, e2]
+  simp only [List.length_append]
+  omega
 
 theorem replace_sublist {t : PT} {n : Nat} {s s' : PT} (hnd : t.addrs.Nodup) (hs : t.sub n = some s)
     (hsub : s'.addrs.Sublist s.addrs) : (t.replace n s').addrs.Sublist t.addrs := by
@@ -287,7 +303,8 @@ theorem splice_holds {h : Nat → Node} {al : Nat} {root : Option Nat} {sz : Int
          ((h p).left ≠ some n ∧ (h' p).left = (h p).left ∧ (h' p).right = some r))) →
       ((h n).parent = none → root' = some r) →
       (∀ p, (h n).parent = some p → root' = root) →
-      ∃ t', Holds ⟨h', al, root', sz'⟩ t' ∧ t'.addrs.Sublist t.addrs ∧ n ∉ t'.addrs ∧ r ∈ t'.addrs := by
+      ∃ t', Holds ⟨h', al, root', sz'⟩ t' ∧ t'.addrs.Sublist t.addrs ∧ n ∉ t'.addrs ∧ r ∈ t'.addrs ∧
+        (((h n).left = none ∨ (h n).right = none) → t'.addrs.length + 1 = t.addrs.length) := by
   obtain ⟨s, hs⟩ := sub_some_of_mem hn
   obtain ⟨⟨L, R, hsLR⟩, hst⟩ := sub_spec hs
   have hsnd := sub_nodup hs hH.2.1
@@ -303,15 +320,21 @@ theorem splice_holds {h : Nat → Node} {al : Nat} {root : Option Nat} {sz : Int
   have hnL : n ∉ L.addrs := fun hb => hdisj n hb n (by simp) rfl
   -- the child subtree
   have hch : ∃ s', Repr h (some r) (some n) s' ∧ (∀ x ∈ s'.addrs, x ∈ (PT.node L n R).addrs ∧ x ≠ n) ∧
-      s'.addrs.Nodup ∧ s'.addrs.Sublist (PT.node L n R).addrs := by
-    rcases hrn with e | ⟨_, e⟩
-    · exact ⟨L, by rw [← e]; exact hL,
+      s'.addrs.Nodup ∧ s'.addrs.Sublist (PT.node L n R).addrs ∧
+      (((h n).left = none ∨ (h n).right = none) → s'.addrs.length + 1 = (PT.node L n R).addrs.length) := by
+    rcases hrn with e | ⟨e0, e⟩
+    · refine ⟨L, by rw [← e]; exact hL,
         fun x hx => ⟨by simp [PT.addrs, hx], fun e => hnL (e ▸ hx)⟩, ndL,
-        List.sublist_append_left L.addrs (n :: R.addrs)⟩
-    · exact ⟨R, by rw [← e]; exact hR,
+        List.sublist_append_left L.addrs (n :: R.addrs), ?_⟩
+      rintro (c | c)
+      · rw [e] at c; cases c
+      · rw [c] at hR; rw [repr_nil hR]; simp [PT.addrs]
+    · refine ⟨R, by rw [← e]; exact hR,
         fun x hx => ⟨by simp [PT.addrs, hx], fun e => hnR (e ▸ hx)⟩, ndR,
-        (List.sublist_cons_self n R.addrs).trans (List.sublist_append_right L.addrs (n :: R.addrs))⟩
-  obtain ⟨s', hs'R, hs'sub, hs'nd, hs'sl⟩ := hch
+        (List.sublist_cons_self n R.addrs).trans (List.sublist_append_right L.addrs (n :: R.addrs)), ?_⟩
+      intro _
+      rw [e0] at hL; rw [repr_nil hL]; simp [PT.addrs]
+  obtain ⟨s', hs'R, hs'sub, hs'nd, hs'sl, hs'len⟩ := hch
   cases s' with
   | leaf => simp [Repr] at hs'R
   | node A r' B =>
@@ -355,9 +378,10 @@ theorem splice_holds {h : Nat → Node} {al : Nat} {root : Option Nat} {sz : Int
         · exact .inr ⟨a1, a2, fun _ => a3⟩)
       hroot1 hroot2
     refine ⟨_, hrep.1, replace_sublist hH.2.1 hs hs'sl,
-      not_mem_replace hH.2.1 hs (fun hx => (hs'sub n hx).2 rfl), ?_⟩
-    rw [mem_replace hH.2.1 hs]
-    exact .inr (by simp [PT.addrs])
+      not_mem_replace hH.2.1 hs (fun hx => (hs'sub n hx).2 rfl), ?_, ?_⟩
+    · rw [mem_replace hH.2.1 hs]
+      exact .inr (by simp [PT.addrs])
+    · exact fun c => replace_length hH.2.1 hs (hs'len c)
 
 /-- cutting off the subtree at `n` (whose parent is `p`) -/
 theorem cut_holds {h : Nat → Node} {al : Nat} {root : Option Nat} {sz : Int} {t : PT} {n p : Nat}
@@ -368,13 +392,14 @@ theorem cut_holds {h : Nat → Node} {al : Nat} {root : Option Nat} {sz : Int} {
       ((h' p).parent = (h p).parent ∧
         (((h p).left = some n ∧ (h' p).left = none ∧ (h' p).right = (h p).right) ∨
          ((h p).left ≠ some n ∧ (h' p).left = (h p).left ∧ (h' p).right = none))) →
-      ∃ t', Holds ⟨h', al, root, sz'⟩ t' ∧ t'.addrs.Sublist t.addrs ∧ n ∉ t'.addrs := by
+      ∃ t', Holds ⟨h', al, root, sz'⟩ t' ∧ t'.addrs.Sublist t.addrs ∧ n ∉ t'.addrs ∧
+        ((h n).left = none → (h n).right = none → t'.addrs.length + 1 = t.addrs.length) := by
   obtain ⟨s, hs⟩ := sub_some_of_mem hn
   obtain ⟨⟨L, R, hsLR⟩, hst⟩ := sub_spec hs
   have hsubR := repr_sub hH.1 hs
   subst hsLR
   simp only [Repr] at hsubR
-  obtain ⟨_, hpar, _, _⟩ := hsubR
+  obtain ⟨_, hpar, hL, hR⟩ := hsubR
   have hns : n ∈ (PT.node L n R).addrs := by simp [PT.addrs]
   have hpf : p ∉ (PT.node L n R).addrs ∧ ((h p).left = some n ∨ (h p).right = some n) := by
     rcases par_facts hH.1 hH.2.1 hs with ⟨e1, _⟩ | ⟨p', e1, _, e3, e4⟩
@@ -393,8 +418,25 @@ theorem cut_holds {h : Nat → Node} {al : Nat} {root : Option Nat} {sz : Int} {
       · exact .inl ⟨a1, a2, a3⟩
       · exact .inr ⟨a1, a2, fun _ => a3⟩)
     (fun e => by rw [hp] at e; simp at e) (fun _ _ => rfl)
-  exact ⟨_, hrep.1, replace_sublist hH.2.1 hs (by simp [PT.addrs]),
-    not_mem_replace hH.2.1 hs (by simp [PT.addrs])⟩
+  refine ⟨_, hrep.1, replace_sublist hH.2.1 hs (by simp [PT.addrs]),
+    not_mem_replace hH.2.1 hs (by simp [PT.addrs]), fun c1 c2 => replace_length hH.2.1 hs ?_⟩
+  rw [c1] at hL; rw [c2] at hR
+  rw [repr_nil hL, repr_nil hR]; simp [PT.addrs]
+
+/-- a childless, parentless node of the tree is the whole tree -/
+theorem single_node {st : St} {t : PT} {n : Nat} (hH : Holds st t) (hn : n ∈ t.addrs)
+    (hl : (st.h n).left = none) (hr : (st.h n).right = none) (hp : (st.h n).parent = none) :
+    t.addrs.length = 1 := by
+  obtain ⟨s, hs⟩ := sub_some_of_mem hn
+  obtain ⟨⟨L, R, hsLR⟩, _⟩ := sub_spec hs
+  have hsubR := repr_sub hH.1 hs
+  subst hsLR
+  simp only [Repr] at hsubR
+  obtain ⟨_, hpar, hL, hR⟩ := hsubR
+  rcases par_facts hH.1 hH.2.1 hs with ⟨_, e2⟩ | ⟨p', e1, _, _, _⟩
+  · rw [hl] at hL; rw [hr] at hR
+    rw [← e2, repr_nil hL, repr_nil hR]; simp [PT.addrs]
+  · rw [hpar, e1] at hp; cases hp
 
 /-! ### the pieces of the body -/
 
@@ -466,6 +508,11 @@ def dnRest : Stmt PName :=
     (.seq (.ite (.ne (.var 3) .nil) dnSplice dnNoRepl)
     (.setSize (.add .size (.int (-1)))))))
 
+def dnIte : Stmt PName := (.ite (.ne (.var 3) .nil) dnSplice dnNoRepl)
+
+theorem dnRest_eq : dnRest =
+    (.seq (.assign 3 .nil) (.seq dnPick (.seq dnIte (.setSize (.add .size (.int (-1))))))) := rfl
+
 theorem body_deleteNode_eq' : body_deleteNode =
     (.seq (.assign 1 (.var 0)) (.seq dnSucc dnRest)) := rfl
 
@@ -535,10 +582,11 @@ theorem exec_pick : ∀ ρ st fl ρ' st' n, ρ 1 = .ptr (some n) →
 
 theorem exec_tail (hK : ∀ fn, isK fn = true → SpecK callH fn)
     (hGC : ∀ args st v st', callH .getColor args st = .ok (v, st') → st' = st) :
-    ∀ ρ st fl ρ' st' (st0 : St) (t : PT) n r, exec cmpF callH lf ρ st dnTail = .ok (fl, ρ', st') →
-      ρ 3 = .ptr (some r) → (∃ t', Shr st0 st t t' n ∧ r ∈ t'.addrs) →
-      fl = .normal ∧ ∃ t', Shr st0 st' t t' n := by
-  intro ρ st fl ρ' st' st0 t n r hx hρ3 ⟨t', hS, hr⟩
+    ∀ ρ st fl ρ' st' (st0 : St) (t : PT) n r (Q : List Nat → Prop),
+      exec cmpF callH lf ρ st dnTail = .ok (fl, ρ', st') →
+      ρ 3 = .ptr (some r) → (∃ t', Shr st0 st t t' n ∧ r ∈ t'.addrs ∧ Q t'.addrs) →
+      fl = .normal ∧ ∃ t', Shr st0 st' t t' n ∧ Q t'.addrs := by
+  intro ρ st fl ρ' st' st0 t n r Q hx hρ3 ⟨t', hS, hr, hQ⟩
   simp only [dnTail, exec, evalE, hρ3] at hx
   cases hc : callH .getColor [ρ 1] st with
   | error e => simp [hc] at hx
@@ -552,7 +600,7 @@ theorem exec_tail (hK : ∀ fn, isK fn = true → SpecK callH fn)
       | false =>
         simp [hc] at hx
         obtain ⟨rfl, rfl, rfl⟩ := hx
-        exact ⟨rfl, t', hS⟩
+        exact ⟨rfl, t', hS, hQ⟩
       | true =>
         simp only [hc] at hx
         cases hf : callH .fixAfterDelete [.ptr (some r)] st1 with
@@ -562,7 +610,7 @@ theorem exec_tail (hK : ∀ fn, isK fn = true → SpecK callH fn)
           obtain ⟨t2, _, hpr, _⟩ := hK .fixAfterDelete rfl _ _ _ _ t' hS.holds (by simpa [PtrIn] using hr) hf
           simp [hf] at hx
           obtain ⟨rfl, rfl, rfl⟩ := hx
-          exact ⟨rfl, t2, hS.pres hpr⟩
+          exact ⟨rfl, t2, hS.pres hpr, by rw [hpr.addrs]; exact hQ⟩
     | _ => simp [hc] at hx
 
 theorem exec_splice (hK : ∀ fn, isK fn = true → SpecK callH fn)
@@ -570,7 +618,8 @@ theorem exec_splice (hK : ∀ fn, isK fn = true → SpecK callH fn)
     ∀ ρ st fl ρ' st' t n r, Holds st t → n ∈ t.addrs → ρ 1 = .ptr (some n) → ρ 3 = .ptr (some r) →
       ((st.h n).left = some r ∨ ((st.h n).left = none ∧ (st.h n).right = some r)) →
       exec cmpF callH lf ρ st dnSplice = .ok (fl, ρ', st') →
-      fl = .normal ∧ ∃ t', Shr st st' t t' n := by
+      fl = .normal ∧ ∃ t', Shr st st' t t' n ∧
+        (((st.h n).left = none ∨ (st.h n).right = none) → t'.addrs.length + 1 = t.addrs.length) := by
   intro ρ st fl ρ' st' t n r hH hn hρ1 hρ3 hrn hx
   obtain ⟨hrn', hpn, hsp⟩ := splice_holds (sz := st.size) hH hn hrn
   have hnr : n ≠ r := Ne.symm hrn'
@@ -578,7 +627,7 @@ theorem exec_splice (hK : ∀ fn, isK fn = true → SpecK callH fn)
   cases hp : (st.h n).parent with
   | none =>
     simp [hp, upd_ne, hnr, hρ1] at hx
-    refine exec_tail cmpF callH lf hK hGC _ _ _ _ _ st t n r hx hρ3 (shr_intro (hsp _ _ _ ?_ ?_ ?_ ?_ ?_) ?_)
+    refine exec_tail cmpF callH lf hK hGC _ _ _ _ _ st t n r (LenQ ((st.h n).left = none ∨ (st.h n).right = none) t.addrs.length) hx hρ3 (shr_intro (LenQ ((st.h n).left = none ∨ (st.h n).right = none) t.addrs.length) (hsp _ _ _ ?_ ?_ ?_ ?_ ?_) ?_)
     · simp [upd_ne, upd_same, hrn', hp]
     · intro x h1 h2 _; simp [upd_ne, h1, h2, SamePtrs]
     · intro p hp'; rw [hp] at hp'; cases hp'
@@ -592,7 +641,7 @@ theorem exec_splice (hK : ∀ fn, isK fn = true → SpecK callH fn)
     | true =>
       have hb' : (st.h p).left = some n := (eq_of_beq hb).symm
       simp [hb, hp, upd_ne, upd_same, hnr, hpr, hρ1, Ne.symm hpn1] at hx
-      refine exec_tail cmpF callH lf hK hGC _ _ _ _ _ st t n r hx hρ3 (shr_intro (hsp _ _ _ ?_ ?_ ?_ ?_ ?_) ?_)
+      refine exec_tail cmpF callH lf hK hGC _ _ _ _ _ st t n r (LenQ ((st.h n).left = none ∨ (st.h n).right = none) t.addrs.length) hx hρ3 (shr_intro (LenQ ((st.h n).left = none ∨ (st.h n).right = none) t.addrs.length) (hsp _ _ _ ?_ ?_ ?_ ?_ ?_) ?_)
       · simp [upd_ne, upd_same, hrn', hp, Ne.symm hpr]
       · intro x h1 h2 h3
         have h4 : x ≠ p := fun e => h3 (by rw [hp, e])
@@ -606,7 +655,7 @@ theorem exec_splice (hK : ∀ fn, isK fn = true → SpecK callH fn)
     | false =>
       have hb' : (st.h p).left ≠ some n := fun e => by simp [e] at hb
       simp [hb, hp, upd_ne, upd_same, hnr, hpr, hρ1, Ne.symm hpn1] at hx
-      refine exec_tail cmpF callH lf hK hGC _ _ _ _ _ st t n r hx hρ3 (shr_intro (hsp _ _ _ ?_ ?_ ?_ ?_ ?_) ?_)
+      refine exec_tail cmpF callH lf hK hGC _ _ _ _ _ st t n r (LenQ ((st.h n).left = none ∨ (st.h n).right = none) t.addrs.length) hx hρ3 (shr_intro (LenQ ((st.h n).left = none ∨ (st.h n).right = none) t.addrs.length) (hsp _ _ _ ?_ ?_ ?_ ?_ ?_) ?_)
       · simp [upd_ne, upd_same, hrn', hp, Ne.symm hpr]
       · intro x h1 h2 h3
         have h4 : x ≠ p := fun e => h3 (by rw [hp, e])
@@ -654,7 +703,8 @@ theorem exec_fix (hK : ∀ fn, isK fn = true → SpecK callH fn)
 theorem exec_cut :
     ∀ ρ st fl ρ' st' t n, Holds st t → n ∈ t.addrs → ρ 1 = .ptr (some n) →
       exec cmpF callH lf ρ st dnCut = .ok (fl, ρ', st') →
-      fl = .normal ∧ (((st.h n).parent = none ∧ st' = st) ∨ ∃ t', Shr st st' t t' n) := by
+      fl = .normal ∧ (((st.h n).parent = none ∧ st' = st) ∨ ∃ t', Shr st st' t t' n ∧
+        ((st.h n).left = none → (st.h n).right = none → t'.addrs.length + 1 = t.addrs.length)) := by
   intro ρ st fl ρ' st' t n hH hn hρ1 hx
   simp only [dnCut, exec, evalE, hρ1, valEq_ptr, Node.get, Node.set] at hx
   cases hp : (st.h n).parent with
@@ -670,7 +720,7 @@ theorem exec_cut :
       have hb' : (st.h p).left = some n := (eq_of_beq hb).symm
       simp [hb, hp, hρ1, upd_ne, Ne.symm hpn] at hx
       obtain ⟨rfl, rfl, rfl⟩ := hx
-      refine ⟨rfl, .inr (shr_intro' (hcut _ _ ?_ ?_) ?_)⟩
+      refine ⟨rfl, .inr (shr_intro' (fun L => (st.h n).left = none → (st.h n).right = none → L.length + 1 = t.addrs.length) (hcut _ _ ?_ ?_) ?_)⟩
       · intro x h1 h2; simp [upd_ne, h1, h2, SamePtrs]
       · simp [upd_ne, upd_same, hpn, hb']
       · intro a; simp only [upd]; (repeat' split) <;> simp_all
@@ -681,7 +731,7 @@ theorem exec_cut :
       | true =>
         simp [hb2, hp, hρ1, upd_ne, Ne.symm hpn] at hx
         obtain ⟨rfl, rfl, rfl⟩ := hx
-        refine ⟨rfl, .inr (shr_intro' (hcut _ _ ?_ ?_) ?_)⟩
+        refine ⟨rfl, .inr (shr_intro' (fun L => (st.h n).left = none → (st.h n).right = none → L.length + 1 = t.addrs.length) (hcut _ _ ?_ ?_) ?_)⟩
         · intro x h1 h2; simp [upd_ne, h1, h2, SamePtrs]
         · simp [upd_ne, upd_same, hpn, hb']
         · intro a; simp only [upd]; (repeat' split) <;> simp_all
@@ -691,11 +741,19 @@ theorem exec_cut :
         · exact hb' e
         · simp [e] at hb2
 
+/-- `fixAfterDelete(n)` on a leaf with a parent leaves it a leaf (a hypothesis of `deleteNode_size`) -/
+def LeafStays (st : St) (n : Nat) : Prop :=
+  (st.h n).left = none → (st.h n).right = none → (st.h n).parent ≠ none →
+  ∀ v stm, callH .fixAfterDelete [.ptr (some n)] st = .ok (v, stm) →
+    (stm.h n).left = none ∧ (stm.h n).right = none
+
 theorem exec_norepl (hK : ∀ fn, isK fn = true → SpecK callH fn)
     (hGC : ∀ args st v st', callH .getColor args st = .ok (v, st') → st' = st) :
     ∀ ρ st fl ρ' st' t n, Holds st t → n ∈ t.addrs → ρ 1 = .ptr (some n) →
       exec cmpF callH lf ρ st dnNoRepl = .ok (fl, ρ', st') →
-      fl = .normal ∧ ((∃ t', Shr st st' t t' n) ∨
+      fl = .normal ∧ ((∃ t', Shr st st' t t' n ∧
+          ((st.h n).left = none → (st.h n).right = none → LeafStays callH st n →
+            t'.addrs.length + 1 = t.addrs.length)) ∨
         ((st.h n).parent ≠ none ∧ ∃ v t', callH .fixAfterDelete [.ptr (some n)] st = .ok (v, st') ∧
           Pres st st' t t' ∧ (st'.h n).parent = none)) := by
   intro ρ st fl ρ' st' t n hH hn hρ1 hx
@@ -704,8 +762,9 @@ theorem exec_norepl (hK : ∀ fn, isK fn = true → SpecK callH fn)
   | none =>
     simp [hp] at hx
     obtain ⟨rfl, rfl, rfl⟩ := hx
-    exact ⟨rfl, .inl ⟨.leaf, ⟨by simp [Repr], by simp [PT.addrs], by simp [PT.addrs]⟩, by simp [PT.addrs],
-      by simp [PT.addrs], fun _ => rfl⟩⟩
+    refine ⟨rfl, .inl ⟨.leaf, ⟨⟨by simp [Repr], by simp [PT.addrs], by simp [PT.addrs]⟩, by simp [PT.addrs],
+      by simp [PT.addrs], fun _ => rfl⟩, fun hl hr _ => ?_⟩⟩
+    rw [single_node hH hn hl hr hp]; rfl
   | some p =>
     simp [hp] at hx
     cases hf : exec cmpF callH lf ρ st dnFix with
@@ -716,11 +775,16 @@ theorem exec_norepl (hK : ∀ fn, isK fn = true → SpecK callH fn)
       simp [hf] at hx
       obtain ⟨h1, hcut⟩ := exec_cut cmpF callH lf _ _ _ _ _ t1 n hpr.holds ((hpr.same n).2 hn) hρ1 hx
       refine ⟨h1, ?_⟩
-      rcases hcut with ⟨hpn, rfl⟩ | ⟨t2, hS⟩
+      rcases hcut with ⟨hpn, rfl⟩ | ⟨t2, hS, hlen⟩
       · rcases hcase with rfl | ⟨v, hv⟩
         · rw [hp] at hpn; cases hpn
         · exact .inr ⟨by simp, v, t1, hv, hpr, hpn⟩
-      · exact .inl ⟨t2, Shr.of_pres hpr hS⟩
+      · refine .inl ⟨t2, Shr.of_pres hpr hS, fun hl hr hls => ?_⟩
+        rw [← hpr.addrs]
+        rcases hcase with rfl | ⟨v, hv⟩
+        · exact hlen hl hr
+        · obtain ⟨l1, r1⟩ := hls hl hr (by simp [hp]) v _ hv
+          exact hlen l1 r1
 
 /-- the exceptional outcome that contract K alone cannot exclude: `fixAfterDelete(n)` made the parentless -/
 def Bad (st st' : St) (t : PT) (n : Nat) : Prop :=
@@ -732,7 +796,9 @@ theorem exec_rest (hK : ∀ fn, isK fn = true → SpecK callH fn)
     (hGC : ∀ args st v st', callH .getColor args st = .ok (v, st') → st' = st) :
     ∀ ρ st fl ρ' st' t n, Holds st t → n ∈ t.addrs → ρ 1 = .ptr (some n) →
       exec cmpF callH lf ρ st dnRest = .ok (fl, ρ', st') →
-      fl = .normal ∧ ((∃ t', Shr st st' t t' n) ∨ Bad callH st st' t n) := by
+      fl = .normal ∧ ((∃ t', Shr st st' t t' n ∧
+        (((st.h n).left = none ∨ (st.h n).right = none) → LeafStays callH st n →
+          t'.addrs.length + 1 = t.addrs.length)) ∨ Bad callH st st' t n) := by
   intro ρ st fl ρ' st' t n hH hn hρ1 hx
   simp only [dnRest, exec, evalE] at hx
   have hρ1' : (ρ.set 3 (.ptr none)) 1 = .ptr (some n) := by simp [Env.set, hρ1]
@@ -744,21 +810,25 @@ theorem exec_rest (hK : ∀ fn, isK fn = true → SpecK callH fn)
     simp only [h2] at hx
     have hsplice : ∀ r, ρ2 3 = .ptr (some r) →
         ((st2.h n).left = some r ∨ ((st2.h n).left = none ∧ (st2.h n).right = some r)) →
-        fl = .normal ∧ ((∃ t', Shr st2 st' t t' n) ∨ Bad callH st2 st' t n) := by
+        fl = .normal ∧ ((∃ t', Shr st2 st' t t' n ∧
+          (((st2.h n).left = none ∨ (st2.h n).right = none) → LeafStays callH st2 n →
+            t'.addrs.length + 1 = t.addrs.length)) ∨ Bad callH st2 st' t n) := by
       intro r hρ3 hrn
       simp [hρ3, valEq_ptr] at hx
       cases h3 : exec cmpF callH lf ρ2 st2 dnSplice with
       | error e => simp [h3] at hx
       | ok res =>
         obtain ⟨fl3, ρ3, st3⟩ := res
-        obtain ⟨rfl, t3, hS⟩ := exec_splice cmpF callH lf hK hGC _ _ _ _ _ t n r hH hn hρ2 hρ3 hrn h3
+        obtain ⟨rfl, t3, hS, hlen⟩ := exec_splice cmpF callH lf hK hGC _ _ _ _ _ t n r hH hn hρ2 hρ3 hrn h3
         simp [h3] at hx
         obtain ⟨rfl, rfl, rfl⟩ := hx
-        exact ⟨rfl, .inl ⟨t3, hS.holds, hS.sub, hS.nmem, hS.keys⟩⟩
+        exact ⟨rfl, .inl ⟨t3, ⟨hS.holds, hS.sub, hS.nmem, hS.keys⟩, fun c _ => hlen c⟩⟩
     rcases hpick with ⟨r, hl, hρ3⟩ | ⟨hl, hρ3⟩
     · exact hsplice r hρ3 (.inl hl)
     · cases hr : (st2.h n).right with
-      | some r => exact hsplice r (by rw [hρ3, hr]) (.inr ⟨hl, hr⟩)
+      | some r =>
+        have h := hsplice r (by rw [hρ3, hr]) (.inr ⟨hl, hr⟩)
+        rw [hr] at h; exact h
       | none =>
         simp [hρ3, hr, valEq_ptr] at hx
         cases h3 : exec cmpF callH lf ρ2 st2 dnNoRepl with
@@ -769,8 +839,8 @@ theorem exec_rest (hK : ∀ fn, isK fn = true → SpecK callH fn)
           simp [h3] at hx
           obtain ⟨rfl, rfl, rfl⟩ := hx
           refine ⟨rfl, ?_⟩
-          rcases hcase with ⟨t3, hS⟩ | ⟨hpn, v, t3, hv, hpr, hpn'⟩
-          · exact .inl ⟨t3, hS.holds, hS.sub, hS.nmem, hS.keys⟩
+          rcases hcase with ⟨t3, hS, hlen⟩ | ⟨hpn, v, t3, hv, hpr, hpn'⟩
+          · exact .inl ⟨t3, ⟨hS.holds, hS.sub, hS.nmem, hS.keys⟩, fun _ hls => hlen hl hr hls⟩
           · exact .inr ⟨hl, hr, hpn, v, st3, t3, hv, hpr, hpn', hpr.holds⟩
 
 /-- the successor step when the order is known and `findSuccessor` satisfies its exact contract -/
@@ -778,36 +848,45 @@ theorem exec_succ_ord
     (hSucc : ∀ a st v st' t, Holds st t → a ∈ t.addrs → (st.h a).right ≠ none →
        callH .findSuccessor [.ptr (some a)] st = .ok (v, st') →
        st' = st ∧ ∃ s pre post, v = .ptr (some s) ∧ t.addrs = pre ++ a :: s :: post ∧ (st.h s).left = none) :
-    ∀ ρ st fl ρ' st' t n, Holds st t → Ordered cmpF st t → ρ 1 = .ptr (some n) → n ∈ t.addrs →
+    ∀ ρ st fl ρ' st' t n, Holds st t → ρ 1 = .ptr (some n) → n ∈ t.addrs →
       exec cmpF callH lf ρ st dnSucc = .ok (fl, ρ', st') →
-      fl = .normal ∧ ∃ n', Holds st' t ∧ ρ' 1 = .ptr (some n') ∧ n' ∈ t.addrs ∧ Good cmpF st'.h t.addrs n' := by
-  intro ρ st fl ρ' st' t n hH hO hρ hn hx
+      fl = .normal ∧ ∃ n', Holds st' t ∧ ρ' 1 = .ptr (some n') ∧ n' ∈ t.addrs ∧
+        (Ordered cmpF st t → Good cmpF st'.h t.addrs n') ∧ st'.size = st.size ∧
+        ((st'.h n').left = none ∨ (st'.h n').right = none) := by
+  intro ρ st fl ρ' st' t n hH hρ hn hx
   simp only [dnSucc, exec, evalE, hρ, valEq_ptr, Node.get] at hx
   cases hl : (st.h n).left with
   | none =>
     simp [hl] at hx
     obtain ⟨rfl, rfl, rfl⟩ := hx
-    exact ⟨rfl, n, hH, hρ, hn, good_of_ordered hO n⟩
+    exact ⟨rfl, n, hH, hρ, hn, fun hO => good_of_ordered hO n, rfl, .inl hl⟩
   | some l =>
     cases hr : (st.h n).right with
     | none =>
       simp [hl, hr] at hx
       obtain ⟨rfl, rfl, rfl⟩ := hx
-      exact ⟨rfl, n, hH, hρ, hn, good_of_ordered hO n⟩
+      exact ⟨rfl, n, hH, hρ, hn, fun hO => good_of_ordered hO n, rfl, .inr hr⟩
     | some r =>
       cases hc : callH .findSuccessor [.ptr (some n)] st with
       | error e => simp [hl, hr, hc] at hx
       | ok res =>
         obtain ⟨v, st1⟩ := res
-        obtain ⟨rfl, s, pre, post, rfl, hL, _⟩ := hSucc _ _ _ _ t hH hn (by simp [hr]) hc
+        obtain ⟨rfl, s, pre, post, rfl, hL, hsl⟩ := hSucc _ _ _ _ t hH hn (by simp [hr]) hc
         have hs : s ∈ t.addrs := by rw [hL]; simp
+        have hsn : s ≠ n := by
+          have := hH.2.1
+          rw [hL, List.nodup_append] at this
+          have h2 := this.2.1
+          rw [List.nodup_cons] at h2
+          intro e; exact h2.1 (by simp [e])
         simp [hl, hr, hc, Env.set, hρ, Node.set] at hx
         obtain ⟨rfl, rfl, rfl⟩ := hx
-        refine ⟨rfl, s, holds_congr hH (fun a => ?_), by simp [Env.set], hs, ?_⟩
+        refine ⟨rfl, s, holds_congr hH (fun a => ?_), by simp [Env.set], hs, fun hO => ?_, rfl, .inl ?_⟩
         · by_cases han : a = n <;> simp [upd, SamePtrs, han, hl, hr]
         · refine good_succ (key := fun a => (st1.h a).key) hL hH.2.1 hO ?_ ?_
           · intro x hxn; simp [upd, hxn]
           · simp [upd]
+        · simp [upd, hsn, hsl]
 
 end
 
@@ -836,7 +915,7 @@ theorem deleteNode_spec (cmpF : Int → Int → Int) (callH : CallH PName) (lf :
       obtain ⟨rfl, hcase⟩ := exec_rest cmpF callH lf hK hGC _ _ _ _ _ t1 n hH1 hn hρ1 h2
       simp [h2] at hx
       obtain ⟨rfl, rfl⟩ := hx
-      rcases hcase with ⟨t2, hS⟩ | ⟨_, _, _, v, stm, t2, _, hpr, _, hH2⟩
+      rcases hcase with ⟨t2, hS, _⟩ | ⟨_, _, _, v, stm, t2, _, hpr, _, hH2⟩
       · exact ⟨t2, hS.holds, fun x hx => (hsa x).1 (hS.mem x hx)⟩
       · exact ⟨t2, hH2, fun x hx => (hsa x).1 ((hpr.same x).1 hx)⟩
 
@@ -862,7 +941,7 @@ theorem deleteNode_ord (cmpF : Int → Int → Int) (hLaw : Ekit.RB.LawfulCmp cm
   | error e => simp [h1] at hx
   | ok res =>
     obtain ⟨fl1, ρ1, st1⟩ := res
-    obtain ⟨rfl, n, hH1, hρ1, hn, hG⟩ := exec_succ_ord cmpF callH lf hSucc _ _ _ _ _ t a hH hO hρ0 ha h1
+    obtain ⟨rfl, n, hH1, hρ1, hn, hG, _, _⟩ := exec_succ_ord cmpF callH lf hSucc _ _ _ _ _ t a hH hρ0 ha h1
     simp only [h1] at hx
     cases h2 : exec cmpF callH lf ρ1 st1 dnRest with
     | error e => simp [h2] at hx
@@ -871,8 +950,77 @@ theorem deleteNode_ord (cmpF : Int → Int → Int) (hLaw : Ekit.RB.LawfulCmp cm
       obtain ⟨rfl, hcase⟩ := exec_rest cmpF callH lf hK hGC _ _ _ _ _ t n hH1 hn hρ1 h2
       simp [h2] at hx
       obtain ⟨rfl, rfl⟩ := hx
-      rcases hcase with ⟨t2, hS⟩ | ⟨hl, hr, hp, v, stm, t2, hv, _, hp', _⟩
-      · exact ⟨t2, hS.holds, hS.ordered hG⟩
+      rcases hcase with ⟨t2, hS, _⟩ | ⟨hl, hr, hp, v, stm, t2, hv, _, hp', _⟩
+      · exact ⟨t2, hS.holds, hS.ordered (hG hO)⟩
+      · exact absurd hp' (hFix n st1 v stm t hH1 hn hl hr hp hv)
+
+/-- `rb.size--` is executed exactly once, and nothing else touches the counter -/
+theorem rest_size (cmpF : Int → Int → Int) (callH : CallH PName) (lf : Nat)
+    (hSz : ∀ fn, isNoSize fn = true → SpecNoSize callH fn) :
+    ∀ ρ st ρ' st', exec cmpF callH lf ρ st dnRest = .ok (.normal, ρ', st') → st'.size = st.size + -1 := by
+  intro ρ st ρ' st' hx
+  simp only [dnRest_eq, exec, evalE] at hx
+  cases h2 : exec cmpF callH lf (ρ.set 3 (.ptr none)) st dnPick with
+  | error e => simp [h2] at hx
+  | ok res =>
+    obtain ⟨fl2, ρ2, st2⟩ := res
+    have s2 : st2.size = st.size := exec_ns cmpF callH hSz lf dnPick (by decide) _ _ _ _ _ h2
+    cases fl2 with
+    | normal =>
+      simp only [h2] at hx
+      cases h3 : exec cmpF callH lf ρ2 st2 dnIte with
+      | error e => simp [h3] at hx
+      | ok res =>
+        obtain ⟨fl3, ρ3, st3⟩ := res
+        have s3 : st3.size = st2.size := exec_ns cmpF callH hSz lf dnIte (by decide) _ _ _ _ _ h3
+        cases fl3 with
+        | normal =>
+          simp [h3] at hx
+          obtain ⟨_, rfl⟩ := hx
+          simp [s3, s2]
+        | _ => simp [h3] at hx
+    | _ => simp [h2] at hx
+
+theorem deleteNode_size (cmpF : Int → Int → Int) (callH : CallH PName) (lf : Nat)
+    (hK : ∀ fn, isK fn = true → SpecK callH fn)
+    (hGC : ∀ args st v st', callH .getColor args st = .ok (v, st') → st' = st)
+    (hSucc : ∀ a st v st' t, Holds st t → a ∈ t.addrs → (st.h a).right ≠ none →
+       callH .findSuccessor [.ptr (some a)] st = .ok (v, st') →
+       st' = st ∧ ∃ s pre post, v = .ptr (some s) ∧ t.addrs = pre ++ a :: s :: post ∧ (st.h s).left = none)
+    (hFix : ∀ x st v st' t, Holds st t → x ∈ t.addrs → (st.h x).left = none → (st.h x).right = none →
+       (st.h x).parent ≠ none → callH .fixAfterDelete [.ptr (some x)] st = .ok (v, st') → (st'.h x).parent ≠ none)
+    (hLeaf : ∀ x st v st' t, Holds st t → x ∈ t.addrs → (st.h x).left = none → (st.h x).right = none →
+       (st.h x).parent ≠ none → callH .fixAfterDelete [.ptr (some x)] st = .ok (v, st') →
+       (st'.h x).left = none ∧ (st'.h x).right = none)
+    (hSz : ∀ fn, isNoSize fn = true → SpecNoSize callH fn) :
+    ∀ a st v st' t, Holds st t → st.size = (t.addrs.length : Int) → a ∈ t.addrs →
+      runBody cmpF callH lf (procs .deleteNode) [.ptr (some a)] st = .ok (v, st') →
+      ∃ t', Holds st' t' ∧ st'.size = (t'.addrs.length : Int) := by
+  intro a st v st' t hH hsz ha hx
+  simp only [runBody, procs, body_deleteNode_eq'] at hx
+  simp only [exec, evalE] at hx
+  have hρ0 : ((Env.ofArgs [Val.ptr (some a)]).set 1 (Env.ofArgs [Val.ptr (some a)] 0)) 1 = .ptr (some a) := by
+    simp [Env.set, Env.ofArgs]
+  generalize ((Env.ofArgs [Val.ptr (some a)]).set 1 (Env.ofArgs [Val.ptr (some a)] 0)) = ρ0 at hx hρ0
+  cases h1 : exec cmpF callH lf ρ0 st dnSucc with
+  | error e => simp [h1] at hx
+  | ok res =>
+    obtain ⟨fl1, ρ1, st1⟩ := res
+    obtain ⟨rfl, n, hH1, hρ1, hn, _, hsz1, hlf⟩ :=
+      exec_succ_ord cmpF callH lf hSucc _ _ _ _ _ t a hH hρ0 ha h1
+    simp only [h1] at hx
+    cases h2 : exec cmpF callH lf ρ1 st1 dnRest with
+    | error e => simp [h2] at hx
+    | ok res =>
+      obtain ⟨fl2, ρ2, st2⟩ := res
+      obtain ⟨rfl, hcase⟩ := exec_rest cmpF callH lf hK hGC _ _ _ _ _ t n hH1 hn hρ1 h2
+      have hsz2 := rest_size cmpF callH lf hSz _ _ _ _ h2
+      simp [h2] at hx
+      obtain ⟨rfl, rfl⟩ := hx
+      rcases hcase with ⟨t2, hS, hlen⟩ | ⟨hl, hr, hp, v, stm, t2, hv, _, hp', _⟩
+      · refine ⟨t2, hS.holds, ?_⟩
+        have := hlen hlf (fun hl hr hp v stm hv => hLeaf n st1 v stm t hH1 hn hl hr hp hv)
+        omega
       · exact absurd hp' (hFix n st1 v stm t hH1 hn hl hr hp hv)
 
 end Ekit.MiniGo.RBHeap.Del
